@@ -7,7 +7,7 @@ CONSTANTS
   Degs <- DegsQ
   MaxNpts = 4
   Acts = {"CvKnotInsert", "CvKnotRemove"}
-  PtKinds = {"gen", "homlin"}
+  PtKinds = {"gen", "homlin", "negw"}
   WtKinds = {"none", "gen", "const"}
   ExtraNodes <- Extra0
   NodeSize = 2
